@@ -38,8 +38,9 @@ func c11Balance() sdk.Coins {
 }
 
 type c11Hist struct {
-	t   int64
-	amt *big.Int
+	t      int64
+	amt    *big.Int
+	pruned bool // fell out of the basket's limits period at some block end: the module deleted its own record of it
 }
 
 type c11Env struct {
@@ -177,6 +178,7 @@ func (e *c11Env) setTime(t int64) {
 	// limit history that fell out of the basket's CURRENT period — visible later only if the period is edited upwards)
 	if e.now != 0 && t != e.now {
 		basket.EndBlocker(e.ctx, e.k)
+		e.markPruned()
 		e.op("basket endblock", "ok")
 		e.r.Count("endblocker")
 	}
@@ -353,9 +355,45 @@ func (e *c11Env) periodTotal(kind string, id uint64, period uint64) *big.Int {
 	return x
 }
 
+// the same total over the actions the module still remembers (not pruned at an earlier block end)
+func (e *c11Env) periodTotalKept(kind string, id uint64, period uint64) *big.Int {
+	x := new(big.Int)
+	for _, h := range e.logs[fmt.Sprintf("%s/%d", kind, id)] {
+		if h.t >= e.now-int64(period) && !h.pruned {
+			x.Add(x, h.amt)
+		}
+	}
+	return x
+}
+
+// limitFail: an accepted action took the period total above the limit. When the total over the actions the module still
+// remembers is within the limit, the cause is the recorded finding (history pruned under an earlier, shorter period
+// is missing after the period was extended by an edit); otherwise it is a violation.
+func (e *c11Env) limitFail(kind string, id uint64, period uint64, max *big.Int, key, what string) {
+	if e.periodTotalKept(kind, id, period).Cmp(max) <= 0 {
+		e.r.Known("C11/limits/period-extension-forgets-pruned-history", what)
+		return
+	}
+	e.r.Fail(key, what, e.replay())
+}
+
+// markPruned: what the module's EndBlocker does to its per-basket histories, mirrored on the oracle's own log
+func (e *c11Env) markPruned() {
+	for _, b := range e.k.GetAllBaskets(e.ctx) {
+		for _, kind := range []string{"mint", "burn", "swap"} {
+			l := e.logs[fmt.Sprintf("%s/%d", kind, b.Id)]
+			for i := range l {
+				if l[i].t < e.now-int64(b.LimitsPeriod) {
+					l[i].pruned = true
+				}
+			}
+		}
+	}
+}
+
 func (e *c11Env) logAction(kind string, id uint64, amt *big.Int) {
 	k := fmt.Sprintf("%s/%d", kind, id)
-	e.logs[k] = append(e.logs[k], c11Hist{e.now, new(big.Int).Set(amt)})
+	e.logs[k] = append(e.logs[k], c11Hist{t: e.now, amt: new(big.Int).Set(amt)})
 }
 
 func (e *c11Env) checkCaps(b baskettypes.Basket, what string) {
@@ -424,7 +462,7 @@ func (e *c11Env) doMint(a int, id uint64, dep []sdk.Coin) bool {
 		}
 		e.logAction("mint", id, minted)
 		if tot := e.periodTotal("mint", id, bb.LimitsPeriod); tot.Cmp(bb.MintsMax.BigInt()) > 0 {
-			e.r.Fail("C11/mint/period-limit-exceeded", fmt.Sprintf("%s: minted %s within the last %d s > mints_max %s", line, tot, bb.LimitsPeriod, bb.MintsMax), e.replay())
+			e.limitFail("mint", id, bb.LimitsPeriod, bb.MintsMax.BigInt(), "C11/mint/period-limit-exceeded", fmt.Sprintf("%s: minted %s within the last %d s > mints_max %s", line, tot, bb.LimitsPeriod, bb.MintsMax))
 		}
 		e.checkCaps(ba, line)
 	}
@@ -492,7 +530,7 @@ func (e *c11Env) doBurn(a int, id uint64, c sdk.Coin) bool {
 		}
 		e.logAction("burn", id, burn)
 		if tot := e.periodTotal("burn", id, bb.LimitsPeriod); tot.Cmp(bb.BurnsMax.BigInt()) > 0 {
-			e.r.Fail("C11/burn/period-limit-exceeded", fmt.Sprintf("%s: burnt %s within the last %d s > burns_max %s", line, tot, bb.LimitsPeriod, bb.BurnsMax), e.replay())
+			e.limitFail("burn", id, bb.LimitsPeriod, bb.BurnsMax.BigInt(), "C11/burn/period-limit-exceeded", fmt.Sprintf("%s: burnt %s within the last %d s > burns_max %s", line, tot, bb.LimitsPeriod, bb.BurnsMax))
 		}
 		e.checkCaps(ba, line)
 	}
@@ -581,7 +619,7 @@ func (e *c11Env) doSwap(a int, id uint64, ps []baskettypes.SwapPair) bool {
 			}
 		}
 		if tot := e.periodTotal("swap", id, bb.LimitsPeriod); len(ps) > 0 && tot.Cmp(bb.SwapsMax.BigInt()) > 0 {
-			e.r.Fail("C11/swap/period-limit-exceeded", fmt.Sprintf("%s: swapped %s within the last %d s > swaps_max %s", line, tot, bb.LimitsPeriod, bb.SwapsMax), e.replay())
+			e.limitFail("swap", id, bb.LimitsPeriod, bb.SwapsMax.BigInt(), "C11/swap/period-limit-exceeded", fmt.Sprintf("%s: swapped %s within the last %d s > swaps_max %s", line, tot, bb.LimitsPeriod, bb.SwapsMax))
 		}
 		e.checkCaps(ba, line)
 	}
@@ -1041,6 +1079,27 @@ func c11WitnessEditAmount(r *Rec) {
 	e.doEdit(b)
 }
 
+// mint 900 of a 1000-per-20-s limit, let 30 s pass (the EndBlocker prunes the record), extend the period to a day by an
+// edit, mint 900 again: 1800 minted within one (new) period
+func c11WitnessPeriodExtension(r *Rec) {
+	e := newC11Env(r)
+	r.Mark("witness C11/limits/period-extension-forgets-pruned-history (Sekai.Props.C11.period_extension_counterexample)")
+	lim := sdk.NewInt(1000)
+	id, ok := e.doCreate(baskettypes.Basket{Suffix: "usd", Amount: sdk.ZeroInt(), SwapFee: sdk.ZeroDec(), SlipppageFeeMin: sdk.ZeroDec(), TokensCap: sdk.OneDec(),
+		LimitsPeriod: 20, MintsMin: sdk.OneInt(), MintsMax: lim, BurnsMin: sdk.OneInt(), BurnsMax: lim, SwapsMin: sdk.OneInt(), SwapsMax: lim,
+		Tokens: []baskettypes.BasketToken{{Denom: "ukex", Weight: sdk.OneDec(), Amount: sdk.ZeroInt(), Deposits: true, Withdraws: true, Swaps: true}}})
+	if !ok {
+		return
+	}
+	e.doMint(1, id, sdk.NewCoins(sdk.NewInt64Coin("ukex", 900)))
+	e.setTime(e.now + 30)
+	e.setTime(e.now + 1)
+	b, _ := e.k.GetBasketById(e.ctx, id)
+	b.LimitsPeriod = 86400
+	e.doEdit(b)
+	e.doMint(1, id, sdk.NewCoins(sdk.NewInt64Coin("ukex", 900)))
+}
+
 // ---------------------------------------------------------------- main
 
 func runC11(r *Rec) {
@@ -1049,6 +1108,7 @@ func runC11(r *Rec) {
 	c11WitnessSwapRounding(r)
 	c11WitnessNegativeFee(r)
 	c11WitnessEditAmount(r)
+	c11WitnessPeriodExtension(r)
 	episodes, steps := 120, 80
 	if r.Tier == "thorough" {
 		episodes, steps = 1500, 160
